@@ -1515,16 +1515,23 @@ Section Sel.
 
   (** ** row order: training again on permuted rows (C08) *)
 
+  Definition extra_refit_ok (n : nat) (callees : list string) : Prop :=
+    forall c, In c callees ->
+    forall d dP ex sq st pos kw v st1 rec,
+      Forall (good n) pos -> Forall (fun kv => good n (snd kv)) kw ->
+      call_stateful (ECtx d ex sq true) c st pos kw = Ok (v, st1, rec) ->
+      forall st', call_stateful (ECtx dP ex sq true) c st' (map val_sel pos) (map kv_sel kw)
+                  = Ok (val_sel v, st', rec).
+
   Section Refit.
     (* the row operation is a permutation of the rows of lists with n elements *)
     Variable n : nat.
     Hypothesis sel_perm : forall (T : Type) (l : list T), List.length l = n -> Permutation (sel l) l.
-    (* bs and poly are not covered here: their fitted parameters (quantile knots, orthogonal
-       polynomial recurrences) would need their own invariance lemmas *)
-    Hypothesis extra_nil : is_nil extra.   (* [extra = []], opaque to [subst] *)
-
-    Lemma no_bs : In "bs" extra -> seln n <> 0.
-    Proof. rewrite (extra_nil : _ = _). intros []. Qed.
+    (* the additional stateful callees: training them on a permuted argument records the same
+       parameters and returns the permuted value (trivial for extra = []; PermSpline.v proves it
+       for bs and poly); and bs is never given an empty selection *)
+    Hypothesis extra_refit : extra_refit_ok n extra.
+    Hypothesis no_bs : In "bs" extra -> seln n <> 0.
 
     (** Training a stateful transform on permuted data estimates the same parameters. *)
     Lemma call_stateful_refit d dP ex sq name st pos kw v st1 rec :
@@ -1657,10 +1664,12 @@ Section Sel.
         destruct (eval_args_refit args IHa Hsa _ _ _ _ _ _ Hra) as (vs & recsA & -> & -> & Gvs & Lvs & Pa).
         destruct (eval_kwargs_refit kw IHk Hsk _ _ _ _ _ _ Hrk) as (kvs & recsK & -> & -> & Gks & Kks & Pk).
         cbn [app] in *. rewrite Pa. cbn [bind fst snd app]. rewrite Pk. cbn [bind fst snd app].
-        destruct Hkind as [[Hin Hst]|[(Hex & _)|[Hin Hst]]];
-          [|exfalso; rewrite (extra_nil : _ = _) in Hex; exact Hex|]; rewrite Hst in *.
+        destruct Hkind as [[Hin Hst]|[(Hex & _ & Hst)|[Hin Hst]]]; rewrite Hst in *.
         + apply bind_ok in H as ([[w stw] recw] & Hw & H). cbn [fst snd] in H. injection H as <- <- <-.
           unfold cxR. rewrite (call_stateful_refit _ (frame_sel D) _ _ _ _ _ _ _ _ _ Hin Gvs Gks Hw st').
+          reflexivity.
+        + apply bind_ok in H as ([[w stw] recw] & Hw & H). cbn [fst snd] in H. injection H as <- <- <-.
+          unfold cxR. rewrite (extra_refit c Hex _ (frame_sel D) _ _ _ _ _ _ _ _ Gvs Gks Hw st').
           reflexivity.
         + apply bind_ok in H as (w & Hw & H). injection H as <- <- <-.
           assert (Hb : In c box_callees -> List.length vs <= 2 /\ assoc "levels" kvs = None).
@@ -2115,6 +2124,9 @@ Proof. intros c [<-|[]]. right; left; reflexivity. Qed.
 Lemma extra_poly_bs_allowed : extra_allowed ["poly"; "bs"].
 Proof. intros c [<-|[<-|[]]]; [right; left; reflexivity|left; reflexivity]. Qed.
 
+Lemma extra_refit_nil sel n : extra_refit_ok sel n [].
+Proof. intros c []. Qed.
+
 Lemma no_bs_nil (P : Prop) : In "bs" [] -> P.
 Proof. intros []. Qed.
 Lemma no_bs_poly (P : Prop) : In "bs" ["poly"] -> P.
@@ -2564,7 +2576,7 @@ Proof.
            (fun S T a b L => pick_combine idx a b L) (fun T x l => pick_In idx x l)
            [] extra_nil_allowed
            (frame_rows D) (fun T l L => pick_perm idx l (eq_ind_r (fun k => Permutation idx (seq 0 k)) P L))
-           eq_refl D Hwf Hun ex Hex sq l Hs [] v st1 rec H []).
+           (extra_refit_nil _ _) (no_bs_nil _) D Hwf Hun ex Hex sq l Hs [] v st1 rec H []).
 Qed.
 
 (** Components: typed and coded on the permuted frame, a component has the same kind, levels,
@@ -2593,7 +2605,7 @@ Proof.
   - apply (set_type_comp_refit (sel_pick idx) (fun S T f l => pick_map f idx l)
              (fun S T a b L => pick_combine idx a b L) (fun T x l => pick_In idx x l)
              [] extra_nil_allowed
-             (frame_rows D) HP eq_refl D Hwf Hun ex Hex sq r c t Hc Ht).
+             (frame_rows D) HP (extra_refit_nil _ _) (no_bs_nil _) D Hwf Hun ex Hex sq r c t Hc Ht).
   - assert (E : frame_rows (frame_pick idx D) = seln (sel_pick idx) (frame_rows D)).
     { rewrite (seln_pick_perm idx _ P). destruct D as [|[k col] D']; [reflexivity|].
       simpl. destruct col; simpl;
@@ -2636,7 +2648,7 @@ Proof.
   exists (design_sel (sel_pick idx) (frame_rows D) ds). split.
   - apply (eval_model_refit (sel_pick idx) (fun S T f l => pick_map f idx l)
              (fun S T a b L => pick_combine idx a b L) (fun T x l => pick_In idx x l)
-             [] extra_nil_allowed (frame_rows D) HP eq_refl D Hwf Hun ex Hex sq m ds eq_refl Hg Hcs Hrs H).
+             [] extra_nil_allowed (frame_rows D) HP (extra_refit_nil _ _) (no_bs_nil _) D Hwf Hun ex Hex sq m ds eq_refl Hg Hcs Hrs H).
   - unfold design_sel. cbn [ds_nrows ds_common ds_response].
     split; [apply (seln_pick_perm idx _ P)|].
     rewrite !map_map. repeat split; try reflexivity.
@@ -2647,9 +2659,9 @@ Proof.
     + destruct (ds_response ds); reflexivity.
 Qed.
 
-(** What is NOT proved: the same with group-specific terms.  The pieces are the same
-    ([set_type_comp_refit], [set_data_comp_refit], [fold_rows_kron_sel]); what is missing is the
-    bookkeeping through [set_type_gterm]/[set_data_gterm] (forced categoric kind, group labels). *)
+(** The same with group-specific terms: stated here, proved in PredictionGroups.v
+    ([perm_rows_full_statement_proved], from [eval_model_refit_groups]); PermSpline.v extends it to
+    the fragment with bs and poly ([perm_rows_groups_bs]). *)
 Definition perm_rows_full_statement : Prop :=
   forall (idx : list nat) (D : frame) ex sq (m : model) (ds : design),
     frame_wf D -> frame_unordered D ->
